@@ -9,12 +9,14 @@
 //
 // Case lines:
 //
-//		AS id suite attack cc=<0|1>,cr=<0|1>          malicious server against a real verifying GM client
-//		AC id suite attack auth                       malicious client against a real GM server
-//		AM id suite auth cc dir msg off field mask    man in the middle between a real client and a real server
-//		                                              (control: dir=none msg=- off=0 field=- mask=00)
+//			AS id suite attack cc=<0|1>,cr=<0|1>          malicious server against a real verifying GM client
+//			AC id suite attack auth                       malicious client against a real GM server
+//			AM id suite auth cc dir msg off field mask    man in the middle between a real client and a real server
+//			                                              (control: dir=none msg=- off=0 field=- mask=00)
 //
-//	  AN id suite src pattern servername            server-name matching, certificates issued by the test CA (an.go)
+//		  AN id suite src pattern servername            server-name matching, certificates issued by the test CA (an.go)
+//
+//	  PA / PD                                       auth.go decision logic (pa.go)
 //
 // Observation lines: id ok|err|PANIC|HANG (AS, AC, AN) ; id <client> <server> <same> (AM)
 package main
@@ -27,9 +29,12 @@ import (
 	"strings"
 	"sync"
 	"sync/atomic"
+	"time"
 
 	"verifharness/internal/hx"
 )
+
+const pDeadline = 20 * time.Second
 
 func parseSuite(s string) (uint16, bool) {
 	v, err := strconv.ParseUint(s, 16, 16)
@@ -77,6 +82,12 @@ func runCase(line string) (string, string) {
 		}
 		auth, _ := strconv.Atoi(f[4])
 		r, d := runAC(suite, f[3], auth)
+		return id + " " + r, d
+	case "PA":
+		r, d := hx.Guard(pDeadline, func() string { return runPA(f) })
+		return id + " " + r, d
+	case "PD":
+		r, d := hx.Guard(pDeadline, func() string { return runPD(f) })
 		return id + " " + r, d
 	case "AN":
 		suite, ok := parseSuite(f[2])
